@@ -247,6 +247,11 @@ class EAlias(Engine):
         if k == 'probe_immutable':
             cls = g.pick(IMMUTABLE)
             mem = self.members[cls]
+            if g.chance(0.25):
+                # length-carrying property names are resolved on the fly and are not in dir(): read (on whatever immutable the pool
+                # holds - often a slice or an operator result) and assigned like any other member
+                nm = g.pick(['u', 'i', 'uint', 'int', 'hex', 'bin', 'oct', 'h', 'b', 'o', 'f', 'float', 'bytes', 'bits', 'uintle', 'intbe', 'bool']) + str(g.pick([1, 3, 4, 8, 12, 16, 24, 32, 2]))
+                return {'k': 'probe_immutable', 'target': g.int(0, max(n - 1, 0)), 'member': nm, 'assign': g.chance(0.5), 'args': [g.pick([0, 1, 5, '0', '1', 'a', 1.0, True])]}
             return {'k': 'probe_immutable', 'target': g.int(0, max(n - 1, 0)), 'member': g.pick(mem), 'assign': g.chance(0.3),
                     'args': [g.pick([0, 1, 2, 8, -1, None, True, '0b1', '0x0f', 'uint:4', 'bin', [0, 1], 100]) for _ in range(g.int(0, 3))]}
         if k == 'step':
